@@ -308,10 +308,13 @@ def _mutex_lock(ctx, a, c):
     return _lock(ctx, deref(ctx, a[0]))
 
 
-@model("Mutex::try_lock_arc", "Mutex::try_lock", doc="parking_lot")
+@model("Mutex::try_lock_arc", "Mutex::try_lock", doc="parking_lot: Some(guard) if free; may also fail although this thread does not hold the mutex (another thread may: the contention is a symbolic choice)")
 def _mutex_try_lock(ctx, a, c):
     sh = deref(ctx, a[0])
     if sh.locked:
+        return none()
+    contended = ctx.fresh_bool("mutex_held_by_another_thread")
+    if ctx.branch(contended, "try_lock contended"):
         return none()
     return some(_lock(ctx, sh))
 
@@ -425,8 +428,67 @@ def _pc_poll_ready(ctx, a, c):
     x = deref(ctx, a[0])
     x.ready_polls += 1
     st = x.ready.pop(0) if x.ready else "pending"
+    x.last_ready = st
     if st == "pending":
         return Enum("Poll", "Pending", 1, [])
     if st == "ok":
         return Enum("Poll", "Ready", 0, [ok(UNIT)])
     return Enum("Poll", "Ready", 0, [err(Opaque("connection error"))])
+
+
+# ---- Vec as a slice: iteration, filter, count ------------------------------------------------------------
+@model("<Vec as Deref>::deref", "<Vec as DerefMut>::deref_mut", "Vec::as_slice", doc="alloc: a Vec derefs to the slice of its elements")
+def _vec_deref(ctx, a, c):
+    return a[0]
+
+
+class VecIterV:
+    def __init__(self, items):
+        self.items = list(items)
+        self.pos = 0
+        self.pred = None
+
+
+_prev_slice_iter = MODELS.get("slice::iter")
+
+
+@model("slice::iter", "<[]>::iter", "[]::iter", "Vec::iter", doc="core: iterator over element references (Vec model or array aggregate)")
+def _slice_iter_any(ctx, a, c):
+    x = deref(ctx, a[0])
+    if isinstance(x, VecV):
+        return VecIterV([Ref(Cell(v, "vec-elem")) for v in x.items])
+    return _prev_slice_iter(ctx, a, c)
+
+
+@model("Iterator::filter", "<Iter as Iterator>::filter", doc="core: lazily filtered iterator (only `count` is modelled on it)")
+def _iter_filter(ctx, a, c):
+    it = a[0]
+    if not isinstance(it, VecIterV):
+        raise Inconclusive("filter on " + repr(it))
+    it.pred = a[1]
+    return it
+
+
+@model("Iterator::count", "<Filter as Iterator>::count", "<Iter as Iterator>::count", doc="core: number of (remaining) items, the filter predicate evaluated symbolically per item")
+def _iter_count(ctx, a, c):
+    it = a[0]
+    if not isinstance(it, VecIterV):
+        raise Inconclusive("count on " + repr(it))
+    total = z3.BitVecVal(0, 64)
+    for r in it.items[it.pos:]:
+        if it.pred is None:
+            total = total + 1
+            continue
+        keep = call_closure(ctx, it.pred, [Ref(Cell(r, "filter-arg"))])
+        total = total + z3.If(keep, z3.BitVecVal(1, 64), z3.BitVecVal(0, 64))
+    return z3.simplify(total)
+
+
+@model("[]::last", "slice::last", doc="core: reference to the last element, None when empty")
+def _slice_last(ctx, a, c):
+    x = deref(ctx, a[0])
+    if isinstance(x, VecV):
+        return some(Ref(Cell(x.items[-1], "vec-last"))) if x.items else none()
+    if isinstance(x, Agg):
+        return some(Ref(Cell(x.f[-1], "last"))) if x.f else none()
+    raise Inconclusive("last() on " + repr(x))
